@@ -25,7 +25,7 @@ def min_bytes(n):
     return max(1, (n.bit_length() + 7) // 8)
 
 
-def cell_bytes(c: RCell, index_of, size, with_hashes=False):
+def cell_bytes(c: RCell, index_of, size, with_hashes=False, ref_override=None):
     m = c.mask()
     d1 = len(c.refs) + 8 * c.special + 16 * bool(with_hashes) + 32 * m
     out = bytearray([d1, c.d2()])
@@ -36,8 +36,11 @@ def cell_bytes(c: RCell, index_of, size, with_hashes=False):
         for i in sig:
             out += c.D(i).to_bytes(2, 'big')
     out += bits_to_padded_bytes(c.bits)
-    for r in c.refs:
-        out += index_of[r.repr_hash()].to_bytes(size, 'big')
+    for j, r in enumerate(c.refs):
+        v = index_of[r.repr_hash()]
+        if ref_override and j in ref_override:
+            v = ref_override[j] % (256 ** size)
+        out += v.to_bytes(size, 'big')
     return bytes(out)
 
 
@@ -67,9 +70,10 @@ def linear_extension(roots, prio):
 
 
 def encode(roots, magic='generic', size=None, off_bytes=None, has_idx=False, has_cache_bits=False, has_crc=False,
-           with_hashes=(), order=None, cache_bits=()):
+           with_hashes=(), order=None, cache_bits=(), ref_override=None):
     """roots: list of RCell. order: list of distinct cells (parents first) or None for the default.
-    with_hashes / cache_bits: sets of positions in `order`."""
+    with_hashes / cache_bits: sets of positions in `order`.
+    ref_override: {(cell position, ref number): index value} — deliberately corrupt reference indexes (negative tests)."""
     if order is None:
         order = topo(roots)
     index_of = {c.repr_hash(): i for i, c in enumerate(order)}
@@ -77,7 +81,10 @@ def encode(roots, magic='generic', size=None, off_bytes=None, has_idx=False, has
     msize = min_bytes(n)
     size = msize if size is None else size
     assert msize <= size <= 4
-    blobs = [cell_bytes(c, index_of, size, i in with_hashes) for i, c in enumerate(order)]
+    ro = {}
+    for (ci, rj), v in (ref_override or {}).items():
+        ro.setdefault(ci, {})[rj] = v
+    blobs = [cell_bytes(c, index_of, size, i in with_hashes, ro.get(i)) for i, c in enumerate(order)]
     payload = b''.join(blobs)
     moff = min_bytes(len(payload) * (2 if has_cache_bits else 1))
     off_bytes = moff if off_bytes is None else off_bytes
